@@ -19,6 +19,8 @@ use std::fmt::Debug;
 type Pred<T> = Box<dyn Fn(&T) -> bool>;
 type MM = Combinator<MinAdd<i64>, MaxAdd<i64>>;
 type SMM = Combinator<Combinator<SumAdd<i64>, MinAdd<i64>>, MaxAdd<i64>>;
+/// a `Combinator` whose components both have a non-commutative merge
+type AA = Combinator<AffHash, AffHash>;
 
 /// value / modifier magnitudes of one generated history
 #[derive(Clone)]
@@ -31,6 +33,8 @@ struct Style {
 
 trait HItem: SegtreeItem<Self::M> + Clone + Default + Debug + 'static {
     type M: Debug + Clone;
+    /// `v` or `v@md`: an element may carry a (meaningless, for a leaf) pending modifier of its own, e.g. when it is a
+    /// snapshot taken with `ask(i, i)` from another tree
     fn parse_val(tok: &str) -> Option<Self>;
     fn parse_mod(toks: &[&str]) -> Option<Self::M>;
     fn parse_pred(toks: &[&str]) -> Option<Pred<Self>>;
@@ -109,19 +113,48 @@ macro_rules! int_mod {
 }
 
 macro_rules! int_val {
-    () => {
+    ($lazy:expr, $mk:expr) => {
         fn parse_val(tok: &str) -> Option<Self> {
-            tok.parse::<i64>().ok().map(Self::from)
+            let mk: fn(i64, Option<i64>) -> Option<Self> = $mk;
+            match tok.split_once('@') {
+                None => mk(tok.parse::<i64>().ok()?, None),
+                Some((v, m)) => mk(v.parse::<i64>().ok()?, Some(m.parse::<i64>().ok()?)),
+            }
         }
         fn gen_val(rng: &mut SplitMix64, st: &Style) -> String {
-            rng.range_i64(st.vlo, st.vhi).to_string()
+            let v = rng.range_i64(st.vlo, st.vhi);
+            if $lazy && rng.chance(1, 6) {
+                format!("{}@{}", v, rng.range_i64(st.mlo, st.mhi))
+            } else {
+                v.to_string()
+            }
         }
     };
 }
 
+fn no_md<T: From<i64>>(v: i64, md: Option<i64>) -> Option<T> {
+    if md.is_some() {
+        None
+    } else {
+        Some(T::from(v))
+    }
+}
+fn mk_minadd(v: i64, md: Option<i64>) -> Option<MinAdd<i64>> {
+    Some(MinAdd { v, md: md.unwrap_or(0) })
+}
+fn mk_maxadd(v: i64, md: Option<i64>) -> Option<MaxAdd<i64>> {
+    Some(MaxAdd { v, md: md.unwrap_or(0) })
+}
+fn mk_sumadd(v: i64, md: Option<i64>) -> Option<SumAdd<i64>> {
+    Some(SumAdd { v, len: 1, md: md.unwrap_or(0) })
+}
+fn mk_aff(x: i64, md: Option<(i64, i64)>) -> AffHash {
+    AffHash { h: x.rem_euclid(P), pw: B, s: 1, md }
+}
+
 impl HItem for Min<i64> {
     unit_mod!();
-    int_val!();
+    int_val!(false, no_md::<Self>);
     fn parse_pred(toks: &[&str]) -> Option<Pred<Self>> {
         if let Some(c) = int_tok(toks, "lt") {
             return Some(Box::new(move |x: &Self| x.v < c));
@@ -138,7 +171,7 @@ impl HItem for Min<i64> {
 
 impl HItem for Max<i64> {
     unit_mod!();
-    int_val!();
+    int_val!(false, no_md::<Self>);
     fn parse_pred(toks: &[&str]) -> Option<Pred<Self>> {
         if let Some(c) = int_tok(toks, "gt") {
             return Some(Box::new(move |x: &Self| x.v > c));
@@ -155,7 +188,7 @@ impl HItem for Max<i64> {
 
 impl HItem for Sum<i64> {
     unit_mod!();
-    int_val!();
+    int_val!(false, no_md::<Self>);
     fn parse_pred(toks: &[&str]) -> Option<Pred<Self>> {
         if let Some(c) = int_tok(toks, "ge") {
             return Some(Box::new(move |x: &Self| x.v >= c));
@@ -172,7 +205,7 @@ impl HItem for Sum<i64> {
 
 impl HItem for MinAdd<i64> {
     int_mod!();
-    int_val!();
+    int_val!(true, mk_minadd);
     fn parse_pred(toks: &[&str]) -> Option<Pred<Self>> {
         if let Some(c) = int_tok(toks, "lt") {
             return Some(Box::new(move |x: &Self| x.v < c));
@@ -189,7 +222,7 @@ impl HItem for MinAdd<i64> {
 
 impl HItem for MaxAdd<i64> {
     int_mod!();
-    int_val!();
+    int_val!(true, mk_maxadd);
     fn parse_pred(toks: &[&str]) -> Option<Pred<Self>> {
         if let Some(c) = int_tok(toks, "gt") {
             return Some(Box::new(move |x: &Self| x.v > c));
@@ -206,7 +239,7 @@ impl HItem for MaxAdd<i64> {
 
 impl HItem for SumAdd<i64> {
     int_mod!();
-    int_val!();
+    int_val!(true, mk_sumadd);
     fn parse_pred(toks: &[&str]) -> Option<Pred<Self>> {
         if let Some(c) = int_tok(toks, "ge") {
             return Some(Box::new(move |x: &Self| x.v >= c));
@@ -232,7 +265,7 @@ impl HItem for SumAdd<i64> {
 
 impl HItem for MM {
     int_mod!();
-    int_val!();
+    int_val!(true, |v, md| Some(Combinator(mk_minadd(v, md)?, mk_maxadd(v, md)?)));
     fn parse_pred(toks: &[&str]) -> Option<Pred<Self>> {
         if let Some(c) = int_tok(toks, "lt") {
             return Some(Box::new(move |x: &Self| x.0.v < c));
@@ -262,7 +295,7 @@ impl HItem for MM {
 
 impl HItem for SMM {
     int_mod!();
-    int_val!();
+    int_val!(true, |v, md| Some(Combinator(Combinator(mk_sumadd(v, md)?, mk_minadd(v, md)?), mk_maxadd(v, md)?)));
     fn parse_pred(toks: &[&str]) -> Option<Pred<Self>> {
         if let Some(c) = int_tok(toks, "ge") {
             return Some(Box::new(move |x: &Self| x.0 .0.v >= c));
@@ -316,6 +349,25 @@ fn aff_suffixes(w: &[i64]) -> Vec<(i64, i64)> {
     out
 }
 
+/// `x` or `x@a:b`
+fn parse_aff_val(tok: &str) -> Option<(i64, Option<(i64, i64)>)> {
+    match tok.split_once('@') {
+        None => Some((tok.parse().ok()?, None)),
+        Some((x, m)) => {
+            let (a, b) = m.split_once(':')?;
+            Some((x.parse().ok()?, Some((a.parse().ok()?, b.parse().ok()?))))
+        }
+    }
+}
+fn gen_aff_val(rng: &mut SplitMix64, st: &Style) -> String {
+    let x = rng.range_i64(0, st.vhi.max(1));
+    if rng.chance(1, 6) {
+        format!("{}@{}:{}", x, rng.range_i64(0, 9), rng.range_i64(0, 9))
+    } else {
+        x.to_string()
+    }
+}
+
 fn parse_commas(s: &str) -> Option<Vec<i64>> {
     if s == "-" {
         return Some(vec![]);
@@ -326,7 +378,8 @@ fn parse_commas(s: &str) -> Option<Vec<i64>> {
 impl HItem for AffHash {
     type M = (i64, i64);
     fn parse_val(tok: &str) -> Option<Self> {
-        tok.parse::<i64>().ok().map(AffHash::from)
+        let (x, md) = parse_aff_val(tok)?;
+        Some(mk_aff(x, md))
     }
     fn parse_mod(toks: &[&str]) -> Option<(i64, i64)> {
         if toks.len() == 2 {
@@ -347,7 +400,7 @@ impl HItem for AffHash {
         format!("({},{},{})", self.h, self.pw, self.s)
     }
     fn gen_val(rng: &mut SplitMix64, st: &Style) -> String {
-        rng.range_i64(0, st.vhi.max(1)).to_string()
+        gen_aff_val(rng, st)
     }
     fn gen_mod(rng: &mut SplitMix64, st: &Style) -> String {
         // x -> a*x + b: assignments (a = 0), additions (a = 1), identity, general affine maps
@@ -365,20 +418,67 @@ impl HItem for AffHash {
     }
     fn gen_pred(rng: &mut SplitMix64, _aggs: &[Self], elems: &[Self], rev: bool) -> String {
         pick_const(rng).unwrap_or_else(|| {
-            // the first j elements in search direction, then (usually) one that differs
-            let j = rng.below(elems.len() as u64 + 1) as usize;
-            let mut w: Vec<i64> = elems[..j].iter().map(|e| e.h).collect();
-            if j < elems.len() && rng.chance(7, 8) {
-                w.push((elems[j].h + 1 + rng.below(5) as i64) % P);
-            }
-            if w.is_empty() {
-                return if rev { "nsuf -".into() } else { "npre -".into() };
-            }
-            if rev {
-                w.reverse();
-            }
-            let s: Vec<String> = w.iter().map(|x| x.to_string()).collect();
-            format!("{} {}", if rev { "nsuf" } else { "npre" }, s.join(","))
+            let hs: Vec<i64> = elems.iter().map(|e| e.h).collect();
+            format!("{} {}", if rev { "nsuf" } else { "npre" }, gen_aff_word(rng, &hs, rev))
+        })
+    }
+}
+
+fn gen_aff_word(rng: &mut SplitMix64, hs: &[i64], rev: bool) -> String {
+    // the first j elements in search direction, then (usually) one that differs
+    let j = rng.below(hs.len() as u64 + 1) as usize;
+    let mut w: Vec<i64> = hs[..j].to_vec();
+    if j < hs.len() && rng.chance(7, 8) {
+        w.push((hs[j] + 1 + rng.below(5) as i64) % P);
+    }
+    if w.is_empty() {
+        return "-".into();
+    }
+    if rev {
+        w.reverse();
+    }
+    let s: Vec<String> = w.iter().map(|x| x.to_string()).collect();
+    s.join(",")
+}
+
+impl HItem for AA {
+    type M = (i64, i64);
+    fn parse_val(tok: &str) -> Option<Self> {
+        let (x, md) = parse_aff_val(tok)?;
+        Some(Combinator(mk_aff(x, md), mk_aff(2 * x + 1, md)))
+    }
+    fn parse_mod(toks: &[&str]) -> Option<(i64, i64)> {
+        AffHash::parse_mod(toks)
+    }
+    fn parse_pred(toks: &[&str]) -> Option<Pred<Self>> {
+        if toks.len() == 2 && ["npre0", "nsuf0", "npre1", "nsuf1"].contains(&toks[0]) {
+            let w = parse_commas(toks[1])?;
+            let set = if toks[0].starts_with("npre") { aff_prefixes(&w) } else { aff_suffixes(&w) };
+            return Some(if toks[0].ends_with('0') {
+                Box::new(move |x: &Self| !set.contains(&(x.0.h, x.0.pw)))
+            } else {
+                Box::new(move |x: &Self| !set.contains(&(x.1.h, x.1.pw)))
+            });
+        }
+        pred_const(toks)
+    }
+    fn view(&self) -> String {
+        format!("({},{})", self.0.view(), self.1.view())
+    }
+    fn gen_val(rng: &mut SplitMix64, st: &Style) -> String {
+        gen_aff_val(rng, st)
+    }
+    fn gen_mod(rng: &mut SplitMix64, st: &Style) -> String {
+        AffHash::gen_mod(rng, st)
+    }
+    fn mod_identity(m: &(i64, i64)) -> bool {
+        *m == (1, 0)
+    }
+    fn gen_pred(rng: &mut SplitMix64, _aggs: &[Self], elems: &[Self], rev: bool) -> String {
+        pick_const(rng).unwrap_or_else(|| {
+            let c = rng.below(2);
+            let hs: Vec<i64> = elems.iter().map(|e| if c == 0 { e.0.h } else { e.1.h }).collect();
+            format!("{}{} {}", if rev { "nsuf" } else { "npre" }, c, gen_aff_word(rng, &hs, rev))
         })
     }
 }
@@ -386,8 +486,15 @@ impl HItem for AffHash {
 impl HItem for StrCat {
     type M = (u64, u64);
     fn parse_val(tok: &str) -> Option<Self> {
-        if !tok.is_empty() && tok.bytes().all(|c| c.is_ascii_lowercase()) {
-            Some(StrCat { s: tok.to_string(), md: None })
+        let (w, md) = match tok.split_once('@') {
+            None => (tok, None),
+            Some((w, m)) => {
+                let (k, c) = m.split_once(':')?;
+                (w, Some((k.parse::<u64>().ok()?, c.parse::<u64>().ok()?)))
+            }
+        };
+        if !w.is_empty() && w.bytes().all(|c| c.is_ascii_lowercase()) {
+            Some(StrCat { s: w.to_string(), md })
         } else {
             None
         }
@@ -419,7 +526,12 @@ impl HItem for StrCat {
     }
     fn gen_val(rng: &mut SplitMix64, _st: &Style) -> String {
         let len = 1 + rng.below(2);
-        (0..len).map(|_| (b'a' + rng.below(4) as u8) as char).collect()
+        let w: String = (0..len).map(|_| (b'a' + rng.below(4) as u8) as char).collect();
+        if rng.chance(1, 6) {
+            format!("{}@{}:{}", w, rng.below(2), rng.below(26))
+        } else {
+            w
+        }
     }
     fn gen_mod(rng: &mut SplitMix64, _st: &Style) -> String {
         match rng.below(6) {
@@ -636,6 +748,7 @@ fn dispatch_run(item: &str, ctor: &str, n: usize, vals: &[&str], ops: &[&str]) -
         "mm" => run_history::<MM>(ctor, n, vals, ops),
         "smm" => run_history::<SMM>(ctor, n, vals, ops),
         "aff" => run_history::<AffHash>(ctor, n, vals, ops),
+        "aa" => run_history::<AA>(ctor, n, vals, ops),
         "str" => run_history::<StrCat>(ctor, n, vals, ops),
         _ => INVALID.into(),
     }
@@ -890,7 +1003,7 @@ fn gen_history<T: HItem>(name: &str, rng: &mut SplitMix64, focus: &str, st: &mut
     line
 }
 
-const ITEMS: [&str; 10] = ["min", "max", "sum", "minadd", "maxadd", "sumadd", "mm", "smm", "aff", "str"];
+const ITEMS: [&str; 11] = ["min", "max", "sum", "minadd", "maxadd", "sumadd", "mm", "smm", "aff", "aa", "str"];
 
 fn gen_one(item: &str, rng: &mut SplitMix64, focus: &str, st: &mut Stats, big: bool) -> String {
     match item {
@@ -903,6 +1016,7 @@ fn gen_one(item: &str, rng: &mut SplitMix64, focus: &str, st: &mut Stats, big: b
         "mm" => gen_history::<MM>(item, rng, focus, st, big),
         "smm" => gen_history::<SMM>(item, rng, focus, st, big),
         "aff" => gen_history::<AffHash>(item, rng, focus, st, big),
+        "aa" => gen_history::<AA>(item, rng, focus, st, big),
         _ => gen_history::<StrCat>(item, rng, focus, st, big),
     }
 }
@@ -1001,7 +1115,7 @@ fn gen(args: &Args, emit: &mut dyn FnMut(String), st: &mut Stats) {
     let count = if thorough { if focus == "C02" { 120_000 } else { 200_000 } } else if focus == "C02" { 3_000 } else { 3_500 };
     for c in 0..count {
         // the lazy and the non-commutative items get more weight
-        let item = match rng.below(16) {
+        let item = match rng.below(18) {
             0 => "min",
             1 => "max",
             2 => "sum",
@@ -1011,6 +1125,7 @@ fn gen(args: &Args, emit: &mut dyn FnMut(String), st: &mut Stats) {
             8 | 9 => "mm",
             10 => "smm",
             11 | 12 | 13 => "aff",
+            14 | 15 => "aa",
             _ => "str",
         };
         let big = c % 8 == 7;
